@@ -6,6 +6,7 @@
 #define	CONSTR_SET_OF_H
 
 #include <asn_application.h>
+#include <asn_SET_OF.h>
 
 #ifdef __cplusplus
 extern "C" {
@@ -39,6 +40,32 @@ per_type_decoder_f SET_OF_decode_uper;
 per_type_encoder_f SET_OF_encode_uper;
 asn_random_fill_f  SET_OF_random_fill;
 extern asn_TYPE_operation_t asn_OP_SET_OF;
+
+/*
+ * Internally visible buffer holding a single encoded element.
+ */
+struct _el_buffer {
+	uint8_t *buf;
+	size_t length;
+	size_t allocated_size;
+    unsigned bits_unused;
+};
+
+enum SET_OF__encode_method {
+    SOES_DER,   /* Distinguished Encoding Rules */
+    SOES_CUPER, /* Canonical Unaligned Packed Encoding Rules */
+    SOES_COER   /* Canonical Octet Encoding Rules */
+};
+
+/*
+ * Internally visible: encode the elements of the set one by one and sort
+ * the encodings (the canonical order of DER, CANONICAL-UPER and COER).
+ * Returns an array of list->count buffers, or NULL if anything failed.
+ */
+struct _el_buffer *SET_OF__encode_sorted(const asn_TYPE_member_t *elm,
+                                         const asn_anonymous_set_ *list,
+                                         enum SET_OF__encode_method method);
+void SET_OF__encode_sorted_free(struct _el_buffer *el_buf, size_t count);
 
 #ifdef __cplusplus
 }
